@@ -199,3 +199,27 @@ def send_not_sync_programs():
         rb, db = render(b)
         progs.append(Prog("sendnotsync/%s=%s" % (a, b), ra, rb, [[0]], "Value", meta={"macro": b, "dsl": db, "ref": da}))
     return progs
+
+
+def send_future_programs():
+    """the future of a task-spawning macro over Send + 'static branches is itself Send exactly like the plain macro's (it can be a
+    branch of another task-spawning macro or be handed to another thread): both sides go through `need_send` and are driven on
+    another OS thread"""
+    progs = []
+    pre = "fn need_send<T: Send>(t: T) -> T { t }\n"
+    for a, b in (("join_async", "join_async_spawn"), ("join_async", "async_spawn"), ("try_join_async", "try_join_async_spawn"), ("try_join_async", "try_async_spawn")):
+        for ds in ((1, 1), (2, 2), (1, 2), (2, 1, 2), (3, 1)):
+            def render(m):
+                is_try = m.startswith("try")
+                brs = []
+                for bi, d in enumerate(ds):
+                    t = "ready(Ok::<i32, i32>(%d))" % (10 * bi + 1) if is_try else "ready(%d)" % (10 * bi + 1)
+                    for k in range(1, d):
+                        t += (" ~=> |v: i32| ready(Ok::<i32, i32>(v + %d))" % k) if is_try else (" ~|> |v: i32| v + %d" % k)
+                    brs.append(t)
+                d_ = "%s! { %s }" % (m, ", ".join(brs))
+                return "let f = need_send(%s);\nlet x = std::thread::spawn(move || trt().block_on(f)).join().unwrap();\nformat!(\"{:?}\", x)" % d_, d_
+            ra, da = render(a)
+            rb, db = render(b)
+            progs.append(Prog("sendfuture/%s=%s/%s" % (a, b, "".join(map(str, ds))), ra, rb, [[0]], "Value", pre=pre, meta={"macro": b, "dsl": "need_send(%s)" % db, "ref": "need_send(%s)" % da}))
+    return progs
